@@ -95,9 +95,42 @@ var nonZeroF64 = []float64{1.5, math.Copysign(0, -1), math.Inf(-1), math.Smalles
 var nonZeroStr = []string{"a", "héllo", strings.Repeat("x", 127), strings.Repeat("y", 128), "\x00"}
 
 // lift maps (kind, abstract id) to a concrete Go value; salt rotates through the boundary tables
+//
+// salt >= strLenSalt selects the LENGTH lifting: every non-empty string / []byte is strLen() bytes long
+// (content distinct per id), so that the sizes of the enclosing length-delimited records (map entries,
+// embedded messages) can be swept across the 127/128 and 16383/16384 varint boundaries.
 type lift struct{ salt int }
 
+const strLenSalt = 1000
+
+func (l lift) strLen() int {
+	if l.salt >= strLenSalt {
+		return l.salt - strLenSalt
+	}
+	return -1
+}
+
 func (l lift) idx(id, n int) int { return (id - 1 + l.salt) % n }
+
+func (l lift) str(id int) string {
+	if n := l.strLen(); n >= 0 {
+		return strings.Repeat(string(rune('a'+id%26)), n)
+	}
+	return nonZeroStr[l.idx(id, len(nonZeroStr))]
+}
+
+// hasStringLeaf: the shape has a string / bytes leaf somewhere (field, map key, nested message)
+func hasStringLeaf(shape []pField) bool {
+	for _, f := range shape {
+		if f.K == "str" || f.K == "byt" || (f.C == "map" && f.MK == "str") {
+			return true
+		}
+		if isMsgKind(f.K) && hasStringLeaf(subShapes[f.K]) {
+			return true
+		}
+	}
+	return false
+}
 
 func (l lift) scalar(kind string, id int) any {
 	switch kind {
@@ -147,12 +180,12 @@ func (l lift) scalar(kind string, id int) any {
 		if id == 0 {
 			return ""
 		}
-		return nonZeroStr[l.idx(id, len(nonZeroStr))]
+		return l.str(id)
 	case "byt":
 		if id == 0 {
 			return []byte{}
 		}
-		return []byte(nonZeroStr[l.idx(id, len(nonZeroStr))])
+		return []byte(l.str(id))
 	}
 	if n := arrLen(kind); n > 0 {
 		// byte arrays: a single non-zero byte, at the end (id 1), at the start (id 2) or at a salted position
